@@ -29,7 +29,7 @@ ASSUMPTIONS = [
     "only the recorded command line (##commandline, @PG CL) is masked; BAM is compared record by record after decompression",
 ]
 CMDS = ["phase", "phase_ped", "phase_hp_lists", "genotype", "genotype_ped", "polyphase", "haplotag", "haplotagphase",
-        "unphase", "stats", "compare", "split", "find_snv_candidates", "polyphase_pre", "polyphase_pre2"]
+        "unphase", "stats", "compare", "split", "find_snv_candidates", "polyphase_pre", "polyphase_pre2", "polyphase_pre3"]
 
 
 def design_mc(ctx):
@@ -86,6 +86,12 @@ def scenarios(ctx):
                 envs += [{"hashseed": seeds[i % len(seeds)], "threads": t, "rep": 0} for i, t in enumerate([2, 3, 2, 3])]
             if cmd == "haplotag":
                 envs += [{"hashseed": seeds[i % len(seeds)], "threads": t, "rep": 0} for i, t in enumerate([2, 3])]
+            if cmd == "polyphase_pre3":
+                # two samples, only one of them pre-phased: both iteration orders of the two-name set must be realised
+                o2 = _orders_by_seed(names[:2], range(0, 40))
+                for want in (tuple(names[:2]), tuple(reversed(names[:2]))):
+                    hit = [s for s, o in o2.items() if o == want]
+                    envs += [{"hashseed": s, "threads": 1, "rep": 0} for s in hit[:2]]
             if not q:
                 envs += [{"hashseed": rng.randrange(1, 2 ** 31), "threads": 1, "rep": 0} for _ in range(4)]
             scs.append({"cmd": cmd, "names": names, "wseed": wseed, "envs": envs, "input": wi + 1})
@@ -161,6 +167,9 @@ def drive(sc):
             # several blocks of different sizes (coverage gaps), pre-phased input for the --use-prephasing variants
             psc.update(nsamples=1 if pre else 2, nchrom=1, distrust=False, ignore_rg=False, nvar=[18, 30] if pre else [12, 20],
                        nreads=[60, 110] if pre else [40, 70], gap=True, prephased_input=pre, use_prephasing=pre, err=0.02 if pre else psc["err"])
+            if cmd == "polyphase_pre3":
+                psc.update(nsamples=2, sample_names=sc["names"][:2], unphased_samples=[sc["names"][prng.randint(0, 1)]],
+                           nvar=[14, 22], nreads=[50, 80])
             pw = c15.build_world(psc, d)
             base = ["polyphase", "--ploidy", str(psc["ploidy"]), "-o", "{out}/out.vcf", "--block-cut-sensitivity", str(psc["sens"])] + \
                    (["--use-prephasing"] if pre else []) + [os.path.join(d, "in.vcf"), os.path.join(d, "in.bam")]
